@@ -56,6 +56,7 @@ ARITH_OVERFLOW = ["int_add_overflow", "int_sub_overflow", "int_mul_overflow", "b
                   "byte_sub_underflow"]
 KINDS = ["plain", "closure", "method", "ctor", "mapcb", "filtercb", "rec", "recmethod"]
 REC_DEPTH = 2
+RD = [2]      # recursion depth of the spec being rendered
 
 
 def unit_call(i, kind, prefix=""):
@@ -64,11 +65,11 @@ def unit_call(i, kind, prefix=""):
     if kind in ("plain", "closure"):
         return ["r%d = %su%d(a)" % (i, n, i)]
     if kind == "rec":
-        return ["r%d = %su%d(a, %d)" % (i, n, i, REC_DEPTH)]
+        return ["r%d = %su%d(a, %d)" % (i, n, i, RD[0])]
     if kind == "method":
         return ["r%d = o%d.m(a)" % (i, i)]
     if kind == "recmethod":
-        return ["r%d = o%d.m(a, %d)" % (i, i, REC_DEPTH)]
+        return ["r%d = o%d.m(a, %d)" % (i, i, RD[0])]
     if kind == "ctor":
         return ["t%d = C%d(a)" % (i, i), "r%d = t%d.r" % (i, i)]
     if kind == "mapcb":
@@ -84,6 +85,7 @@ def unit_call(i, kind, prefix=""):
 
 def render(spec):
     links = spec["links"]
+    RD[0] = int(spec.get("rec_depth") or REC_DEPTH)
     n = len(links)
     split = spec.get("split")
     if split is None or split >= n or split < 0 or n == 0:
@@ -281,10 +283,10 @@ def render(spec):
         if kind == "method":
             stack.append(["exact", f, "K%d::m" % i])
         elif kind == "recmethod":
-            for _ in range(REC_DEPTH + 1):
+            for _ in range(RD[0] + 1):
                 stack.append(["exact", f, "K%d::m" % i])
         elif kind == "rec":
-            for _ in range(REC_DEPTH + 1):
+            for _ in range(RD[0] + 1):
                 stack.append(["fn", f, "u%d" % i])
         elif kind == "ctor":
             stack.append(["exact", f, "C%d::$constructor" % i])
@@ -316,6 +318,8 @@ def generate(rng, failure=None, depth=None):
     spec = {"links": links, "failure": failure or rng.choice(sorted(FAILS)), "pre": rng.chance(1, 2), "modtop": rng.chance(1, 4),
             "split": rng.range(0, n) if (n and rng.chance(1, 2)) else None}
     # where in the innermost body the failing operation sits (None: directly in the body, or in an `if` when a successful pre-run exists)
+    # (the property speaks of call depth 0-6; recursion adds a few activations per link, far from the interpreter's stack limit)
+    spec["rec_depth"] = rng.weighted([(2, 5), (1, 2), (4, 2), (7, 1)])
     spec["wrap"] = rng.weighted([(None, 4), ("if", 2), ("else", 2), ("while", 2), ("from", 2), ("deep", 1)])
     return spec
 
